@@ -69,9 +69,9 @@ def pROp (d : DS) : P ROp := do
   match (← tok) with
   | "add" =>
     let r ← pNat; let hid ← pNat
-    let f ← pRaw d.fl; let e ← pRaw d.fl; let g ← pRaw d.fl
+    let f ← pRaw d.fl; let e ← pRaw d.fl; let g ← pRaw d.fl; let m ← pRaw d.fl
     let keys ← pList pNat
-    pure (.add r keys hid f e g)
+    pure (.add r keys hid f e g m)
   | "addb" =>
     let r ← pNat; let t ← pNat
     let f ← pRaw d.fl; let e ← pRaw d.fl; let g ← pRaw d.fl
@@ -91,13 +91,39 @@ def pOutcome : P Outcome := do
   | "raise" => pure .raise
   | _ => failure
 
+def pMacroOp : P MacroOp := do
+  match (← tok) with
+  | "S" => pure .start
+  | "E" => pure .stop
+  | "C" => pure .call
+  | "VS" => pure .viStart
+  | "VE" => pure .viStop
+  | _ => failure
+
+/-- `N` or the code point of the character passed to `append_to_arg_count` -/
+def pOptChar : P (Option Char) := do
+  let t ← tok
+  if t == "N" then pure none else
+  match t.toNat? with
+  | some n => pure (some (Char.ofNat n))
+  | none => failure
+
 def pEff (d : DS) : P Eff := do
   let flips ← pList pNat
   let ops ← pList (pROp d)
   let feeds ← pList (do let first ← pBool; let kps ← pList pKP; pure (kps, first))
+  let macros ← pList pMacroOp
   let exit ← pBool
+  let argKey ← pOptChar
   let outcome ← pOutcome
-  pure { flips, ops, feeds, exit, outcome }
+  pure { flips, ops, feeds, macros, exit, argKey, outcome }
+
+/-- `E<str>` (a `Keys` member, by value) or `S<str>` (a plain string) -/
+def pRawKey : P RawKey := do
+  let t ← tok
+  match decStr (t.drop 1).toString with
+  | some x => if t.startsWith "E" then pure (.enum x) else if t.startsWith "S" then pure (.str x) else failure
+  | none => failure
 
 /-! ### printing -/
 
@@ -112,7 +138,7 @@ partial def reprF : F → String
 def reprKeys (ks : List Key) : String := ".".intercalate (ks.map toString)
 
 def reprBinding (b : Binding) : String :=
-  s!"h{b.hid}/{reprKeys b.keys}/{reprF b.filter}/{reprF b.eager}/{reprF b.isGlobal}"
+  s!"h{b.hid}/{reprKeys b.keys}/{reprF b.filter}/{reprF b.eager}/{reprF b.isGlobal}/{reprF b.rim}"
 
 def reprBindings (bs : List Binding) : String := encList reprBinding bs
 
@@ -127,6 +153,15 @@ def reprKP : KP → String
 
 def reprKPs (l : List KP) : String := "[" ++ ",".intercalate (l.map reprKP) ++ "]"
 
+def showArg : Arg → String
+  | none => "~"
+  | some s => String.ofList s
+
+def showArgVal (a : Arg) : String :=
+  match argValue Gen.C04.argCap a with
+  | some v => toString v
+  | none => "!"
+
 def reprObs : Obs → List String
   | .pop k => [s!"P{reprKP k}"]
   | .before => ["B"]
@@ -139,6 +174,34 @@ def reprObs : Obs → List String
   | .cpr none k _ => [s!"KN[{reprKP k}]"]
   | .cprRaise h k p => [s!"K{h}[{reprKP k}]{reprKPs p}", "R"]
   | .raise h s p => [s!"C{h}{reprKPs s}{reprKPs p}", "R"]
+  | .ev a r => [s!"E{showArg a}/{encBool r}/{showArgVal a}"]
+  | .recE s => [s!"ME{reprKPs s}"]
+  | .recV s => [s!"MV{reprKPs s}"]
+
+/-- the numbering of keys shared with harness/c04.py (`knum`): a few fixed small numbers, else
+    1000 + position in `Keys` / 2000 + code point -/
+def legacySpecial : List (String × Nat) :=
+  [("<any>", 0), ("<cursor-position-response>", 1), ("c-x", 4), ("escape", 6), ("c-c", 7), ("<sigint>", 9)]
+def legacyChar : List (Char × Nat) := [('a', 2), ('b', 3), ('c', 5), ('d', 8), ('?', 63)]
+
+def keyNum : PKey → Nat
+  | .special v =>
+    match legacySpecial.lookup (String.ofList v) with
+    | some n => n
+    | none => 1000 + (Gen.C04.keyValues.findIdx? (· == v)).getD 999
+  | .char c =>
+    match legacyChar.lookup c with
+    | some n => n
+    | none => 2000 + c.toNat
+
+def reprPKey : PKey → String
+  | .special v => "K" ++ encStr v
+  | .char c => s!"C{c.toNat}"
+
+def reprRopErr : RopErr → String
+  | .valueError => "err:ValueError"
+  | .unboundLocal => "err:UnboundLocalError"
+  | .assertion => "err:AssertionError"
 
 def sameIdx (fl : Array F) (r : F) : Int :=
   match r with
@@ -157,7 +220,12 @@ def pushF (d : DS) (h : Heap) (r : F) : DS × String :=
 def setT (d : DS) (t : W) : DS := { d with ps := { d.ps with w := { d.ps.w with t := t } } }
 
 def procReply (d : DS) (obs : List Obs) : String :=
-  encList id (obs.flatMap reprObs) ++ s!" # {reprKPs d.ps.buffer} # {reprKPs d.ps.queue} # {reprKPs d.ps.prev}"
+  encList id (obs.flatMap reprObs) ++
+    s!" # {reprKPs d.ps.buffer} # {reprKPs d.ps.queue} # {reprKPs d.ps.prev} # {showArg d.ps.arg}"
+
+def reprOptKPs : Option (List KP) → String
+  | none => "~"
+  | some l => reprKPs l
 
 def processFuel : Nat := 100000
 
@@ -218,14 +286,64 @@ def stepLine (d : DS) (toks : List String) : DS × String :=
     | none => bad
   | "tmpl" :: rest =>
     match run (do let hid ← pNat; let f ← pRaw d.fl; let e ← pRaw d.fl; let g ← pRaw d.fl
+                  let m ← pRaw d.fl
                   pure ({ keys := [], hid := hid, filter := f.toF, eager := e.toF,
-                          isGlobal := g.toF } : Binding)) rest with
+                          isGlobal := g.toF, rim := m.toF } : Binding)) rest with
     | some b => ({ d with tmpl := d.tmpl.push b }, "ok")
     | none => bad
   | "op" :: rest =>
     match run (pROp d) rest with
-    | some op => let r := applyROp x.t op; (setT d r.1, if r.2 then "ok" else "fail")
+    | some op =>
+      let r := applyROp x.t op
+      (setT d r.1, if r.2 then "ok" else match ropErr x.t op with
+        | some e => reprRopErr e
+        | none => "fail")
     | none => bad
+  -- `kb.add(*raw_keys)(handler)`: the keys go through `_parse_key`
+  | "addr" :: r :: hid :: rest =>
+    match r.toNat?, hid.toNat?, run (pList pRawKey) rest with
+    | some r, some hid, some raws =>
+      match x.t.regs[r]? with
+      | some (.kb _) =>
+        if raws.isEmpty then (d, "err:AssertionError") else
+        match parseKeys Gen.C04.keyAliases Gen.C04.keyValues raws with
+        | some ks =>
+          let q := applyROp x.t (.add r (ks.map keyNum) hid (.b true) (.b false) (.b false) (.b true))
+          (setT d q.1, if q.2 then "ok" else "fail")
+        | none => (d, "err:ValueError")
+      | _ => (d, "fail")
+    | _, _, _ => bad
+  | ["parse", raw] =>
+    match run pRawKey [raw] with
+    | some rk =>
+      match parseKey Gen.C04.keyAliases Gen.C04.keyValues rk with
+      | some k => (d, s!"{reprPKey k} {keyNum k}")
+      | none => (d, "err:ValueError")
+    | none => bad
+  -- KeyPressEvent(arg=<str>).arg after appending the given characters one by one
+  | "argv" :: rest =>
+    match run (pList pNat) rest with
+    | some cps =>
+      let step := fun (acc : Option Arg) (n : Nat) => match acc with
+        | some a => (appendArg a (Char.ofNat n)).map some
+        | none => none
+      match cps.foldl step (some none) with
+      | some a => (d, s!"{showArg a} {showArgVal a}")
+      | none => (d, "err:AssertionError")
+    | none => bad
+  -- the re-feeding handler: `fuel` iterations of the process_keys loop
+  | ["refeed", n] =>
+    match n.toNat? with
+    | some n =>
+      let r := processKeys loopI n loopPS
+      let calls := (r.2.1.filter fun o => match o with | .call _ _ _ => true | _ => false).length
+      (d, s!"calls={calls} queued={r.1.queue.length} raised={encBool r.2.2}")
+    | none => bad
+  | ["mstate"] =>
+    let datas := String.join (x.vrec.map fun
+      | .key _ t => toString t
+      | .flush => "_Flush")
+    (d, s!"{reprOptKPs x.erec} {reprOptKPs x.lastMacro} {encBool x.vreg} [{datas}]")
   | "for" :: r :: rest =>
     match r.toNat?, run (pList pNat) rest with
     | some r, some keys => let q := x.t.fns.getFor x.t r keys; (setT d q.1, reprBindings q.2)
